@@ -858,7 +858,7 @@ def run_recorded(ctx, names, per_fn, site_prefix=""):
             if name not in ("spearman_corr",):
                 apply_scale(p, ctx.rng)
             p["ret"] = ctx.rng.choice(["np", "np", "float", "int"])
-            p["intdtype"] = ctx.rng.random() < 0.25 and not (name == "two_sample_shift" and not float(p.get("shift", 0)).is_integer())
+            p["intdtype"] = ctx.rng.random() < 0.25
             g, gkind, gseed = mk_generator(ctx.rng)
             r, seen = fn.call(p, g)
             det = {"call": name, "params": p, "generator": gkind, "seed": gseed}
